@@ -86,3 +86,17 @@ Proof.
   - intros H1 H2 ys. exact (FstOpsProofs.project_out_pathsum S V m HV H1 H2 ys).
 Qed.
 Print Assumptions C10_projections.
+
+(* The constructions the three theorems above are about are the ones the code performs: the definitions regenerated
+   from fst.py on every run (FST.T, FST.diag, FST.project) coincide with the models. *)
+From GV.gen Require Gen_FstOps.
+From GV.proofs Require GenFstOpsBridge.
+Theorem C10_code_is_model : forall (S : SR) (m : fst_t S) (A : Wfsa.wfsa S),
+  Gen_FstOps.gen_transpose S m = transpose m /\ Gen_FstOps.gen_diag S A = FstOpsProofs.diag A /\
+  Gen_FstOps.gen_project S true m = FstOpsProofs.project_in m /\ Gen_FstOps.gen_project S false m = FstOpsProofs.project_out m.
+Proof.
+  intros S m A.
+  exact (conj (GenFstOpsBridge.gen_transpose_model S m) (conj (GenFstOpsBridge.gen_diag_model S A)
+        (conj (GenFstOpsBridge.gen_project_in_model S m) (GenFstOpsBridge.gen_project_out_model S m)))).
+Qed.
+Print Assumptions C10_code_is_model.
